@@ -88,9 +88,13 @@ def l2_monitor(spec, rec, obs):
             return out2, dict(returned_lists=len(lists), collect_then_wait_runs=1 if any(len(l) > 1 for l in seq.values()) else 0)
         return out2, dict(returned_lists=len(lists), collect_then_fail_runs=1)
     dup = [i for i, c in used.items() if c > 1]
-    if dup:
+    if dup and (spec.get("collect_k") or 1) >= 2:
+        # (known only for a collecting step with several workers: overlapping invocations read a stale snapshot)
         out.append("%s: events %s appear in more than one returned list (%s)"
                    % (K_DOUBLE, dup, [r["got"] for r in lists if any(i in dup for _, i in r["got"])]))
+    elif dup:
+        out.append("events %s appear in more than one returned list although the collecting step has ONE worker (%s)"
+                   % (dup, [r["got"] for r in lists if any(i in dup for _, i in r["got"])]))
     stale = 0
     collected_i = {r["i"] for r in rec.log if r["kind"] == "collect"}
     cancelled = any(r["kind"] == "exit" and r["outcome"] == "cancelled" for r in rec.log)
